@@ -60,6 +60,11 @@ inline void gen_frame(const Content &c, int i, std::vector<uint16_t> &Y, std::ve
         if (phase == 1) { for (auto &v : Y) v = clampv(c.val << sh); for (auto &v : U) v = clampv(128 << sh); for (auto &v : V) v = clampv(128 << sh); }
         else { for (auto &v : Y) v = (uint16_t)(r.next() & mx); for (auto &v : U) v = (uint16_t)(r.next() & mx); for (auto &v : V) v = (uint16_t)(r.next() & mx); }
     }
+    else if (k == "pan") { // noise-free smooth ramp panning slowly with a little brightness flicker: temporal filters and noise estimators see "clean" content
+        int fl = (i % 3) - 1;
+        for (int y = 0; y < H; y++) for (int x = 0; x < W; x++) Y[(size_t)y * W + x] = clampv((40 + ((x + i) * 2 + y) % 160 + fl) << sh);
+        for (int y = 0; y < ch; y++) for (int x = 0; x < cw; x++) { U[(size_t)y * cw + x] = clampv((100 + (x + i / 2) % 60) << sh); V[(size_t)y * cw + x] = clampv((140 - y % 50) << sh); }
+    }
     else if (k == "grainy") { // smooth, slowly varying picture + fine noise: what film-grain estimation needs (flat blocks with a measurable noise level)
         auto nz = [&]() { int a = (int)(r.next() & 15), b = (int)(r.next() & 15); return a + b - 15; };   // triangular, about +-15
         for (int y = 0; y < H; y++) for (int x = 0; x < W; x++) Y[(size_t)y * W + x] = clampv(((90 + (x + 2 * i) / 8 + y / 16) + nz() * c.val / 128) << sh);
